@@ -259,7 +259,7 @@ class Pool:
 
     def __init__(self, prop, nworkers=16, timeout=120):
         self.prop, self.n, self.timeout = prop, nworkers, timeout
-        self.ctx = mp.get_context('fork')
+        self.ctx = mp.get_context(os.environ.get('ANDES_DST_MP', 'spawn'))
         self.workers = []
 
     def _spawn(self):
